@@ -10,6 +10,6 @@ CONSTANTS
   CreateErrIsExist = TRUE
   DirtyAfterWrite = TRUE
   MaxFail = 1
-INVARIANTS TypeOK Refines DirIsMap NothingLeftBehind OccupiedIffInserted ReadsReturnStored GoneIsError Emit
+INVARIANTS TypeOK Refines DirIsMap NothingLeftBehind OccupiedIffInserted ReadsReturnStored GoneIsError
 
 CHECK_DEADLOCK FALSE
